@@ -59,27 +59,34 @@ func (pq *clientPacketQueue) addToQueue(header *parser.PacketHeader, v []any) {
 		errV := args[0]
 		hasError := !errV.IsNil()
 
+		pq.mu.Lock()
+		if len(pq.queuedPackets) == 0 || pq.queuedPackets[0] != packet {
+			// The packet has already been acknowledged or discarded: this is the reply to,
+			// or the timeout of, an earlier try (a try is repeated after a reconnection while
+			// the previous one is still pending). Removing the head of the queue here would
+			// drop another packet, and the caller's ack function has already run.
+			pq.mu.Unlock()
+			pq.debug.Log("Packet with ID", packet.id, "has already been acknowledged")
+			return nil
+		}
+		done := true
 		if hasError {
 			packet.mu.Lock()
 			tryCount := packet.tryCount
 			packet.mu.Unlock()
 			if tryCount > pq.socket.config.Retries {
 				pq.debug.Log("Packet with ID", packet.id, "discarded after", tryCount)
-				pq.mu.Lock()
 				pq.queuedPackets = pq.queuedPackets[1:]
-				pq.mu.Unlock()
-				if haveAck {
-					rv.Call(args)
-				}
+			} else {
+				done = false
 			}
 		} else {
 			pq.debug.Log("Packet with ID", packet.id, "successfully sent")
-			pq.mu.Lock()
 			pq.queuedPackets = pq.queuedPackets[1:]
-			pq.mu.Unlock()
-			if haveAck {
-				rv.Call(args)
-			}
+		}
+		pq.mu.Unlock()
+		if done && haveAck {
+			rv.Call(args)
 		}
 		packet.mu.Lock()
 		packet.pending = false
